@@ -15,3 +15,19 @@ mod versioned;
 mod write;
 
 pub use builder::ZoneBuilder;
+
+#[cfg(feature = "verif-hooks")]
+pub use nodes::VerifItem;
+
+/// Returns the current version and the version bookkeeping of every item of
+/// an in-memory zone, or `None` if the zone has another backing store.
+#[cfg(feature = "verif-hooks")]
+pub fn verif_inspect_zone(
+    zone: &super::Zone,
+) -> Option<(u32, alloc::vec::Vec<VerifItem>)> {
+    let store: &dyn super::ZoneStore = zone.as_ref();
+    store
+        .as_any()
+        .downcast_ref::<nodes::ZoneApex>()
+        .map(|apex| apex.verif_inspect())
+}
